@@ -177,6 +177,8 @@ def prerequisites(ctx, chk, tier):
                 chk.unknown("R01.1", "cm cell %s/%s:%s outside the counting model" % (sc, ec, name))
     c09.inverse_maps(ctx, chk, metrics=("fpr", "fnr"))
     c02s.flip_parity(ctx, chk, metrics=("fpr", "fnr"))
+    # eer() reads pos[0], pos[-1], neg[0], neg[-1] as extremes: the class invariant "pos/neg ascending" (R01.4) is a prerequisite
+    c01.run_sortedness(ctx, chk, tier)
 
 
 def find_root(ctx, chk):
